@@ -81,18 +81,28 @@ pub fn oracle_c07(cfg: &EwCfg, tr: &EwTrace, expect_echo: bool) -> Vec<Violation
     let mut out = Vec::new();
     let n = cfg.clients.len();
     for i in 0..n {
+        // life span of each client object (generation g = 1, 2, ...): from its Connect call to the next Connect / Forget call
+        let mut spans: Vec<(usize, usize)> = Vec::new(); // (start round, end round exclusive)
+        for c in tr.calls.iter() {
+            match c.act {
+                Act::Connect(k) if k == i => { if let Some(l) = spans.last_mut() { if l.1 == usize::MAX { l.1 = c.round; } } spans.push((c.round, usize::MAX)); }
+                Act::Forget(k) if k == i => { if let Some(l) = spans.last_mut() { if l.1 == usize::MAX { l.1 = c.round; } } }
+                _ => {}
+            }
+        }
+        let span_of = |gen: usize| spans.get(gen.saturating_sub(1)).copied().unwrap_or((0, usize::MAX));
+        // the nonce of a client object is in the SYN its Client::connect() call sent
+        let connect_calls: Vec<usize> = tr.calls.iter().enumerate().filter(|(_, c)| c.act == Act::Connect(i)).map(|(k, _)| k).collect();
+        let own_nonce = |gen: usize| { let ci = connect_calls.get(gen.saturating_sub(1)).copied(); tr.wire.iter().filter(|d| !d.injected && d.src == caddr(i) && d.call.is_some() && d.call == ci).find_map(|d| if let Some(Frame::HandshakeSynFrame(s)) = &d.frame { Some(s.nonce) } else { None }) };
         // client side
         for e in tr.cev[i].iter().filter(|e| e.ev == Ev::Connect) {
-            // own nonce: SYN frames this client object sent (from its Connect call on)
-            let start = tr.calls.iter().filter(|c| c.act == Act::Connect(i) && c.gen + 1 == e.gen).map(|c| c.round).last().unwrap_or(0);
-            let own: Vec<u32> = tr.wire.iter().filter(|d| !d.injected && d.src == caddr(i) && d.sent_round >= start).filter_map(|d| if let Some(Frame::HandshakeSynFrame(s)) = &d.frame { Some(s.nonce) } else { None }).collect();
-            let ok = tr.delivered.iter().filter(|x| x.round <= e.round && x.round >= start).any(|x| { let d = &tr.wire[x.dg]; d.dst == caddr(i) && d.src == saddr() && matches!(&d.frame, Some(Frame::HandshakeSynAckFrame(s)) if own.first().map_or(false, |o| s.nonce_ack == *o)) });
-            if !ok { out.push(viol("C07.client-connect", "C07.client-connect".into(), format!("client {} reported Connect in round {} but no SYN-ACK echoing its nonce {:x?} had been delivered to it", i, e.round, own.first()))); }
+            let (a, _) = span_of(e.gen); let own = own_nonce(e.gen);
+            let ok = tr.delivered.iter().filter(|x| x.round <= e.round && x.round >= a).any(|x| { let d = &tr.wire[x.dg]; d.dst == caddr(i) && d.src == saddr() && matches!(&d.frame, Some(Frame::HandshakeSynAckFrame(s)) if Some(s.nonce_ack) == own) });
+            if !ok { out.push(viol("C07.client-connect", "C07.client-connect".into(), format!("client {} (object #{}) reported Connect in round {} but no SYN-ACK echoing its nonce {:x?} had been delivered to it", i, e.gen, e.round, own))); }
         }
         // server side: each Connect needs an ACK, delivered since the SYN-ACK of the pending connection was first
         // sent, that returns the nonce of that SYN-ACK
         for e in tr.sev[i].iter().filter(|e| e.ev == Ev::Connect) {
-            // the pending connection: the most recent distinct SYN-ACK (nonce_ack, nonce) sent to that address
             let mut pend: Option<(u32, u32, usize)> = None;
             for d in tr.wire.iter().filter(|d| !d.injected && d.src == saddr() && d.dst == caddr(i) && d.sent_round <= e.round) {
                 if let Some(Frame::HandshakeSynAckFrame(s)) = &d.frame { if pend.map_or(true, |p| (p.0, p.1) != (s.nonce_ack, s.nonce)) { pend = Some((s.nonce_ack, s.nonce, d.sent_round)); } }
@@ -103,22 +113,22 @@ pub fn oracle_c07(cfg: &EwCfg, tr: &EwTrace, expect_echo: bool) -> Vec<Violation
             };
             if !ok { out.push(viol("C07.server-connect", "C07.server-connect".into(), format!("server reported Connect for client {} in round {} but no ACK returning the nonce of its pending SYN-ACK {:x?} had been delivered from that address since it was issued", i, e.round, pend.map(|p| p.1)))); }
         }
-        // starting sequence numbers: first data frame of each direction after a successful handshake
-        let c_connects: Vec<&EvRec> = tr.cev[i].iter().filter(|e| e.ev == Ev::Connect).collect();
-        for e in c_connects.iter() {
-            let start = tr.calls.iter().filter(|c| c.act == Act::Connect(i) && c.gen + 1 == e.gen).map(|c| c.round).last().unwrap_or(0);
-            let end = tr.calls.iter().filter(|c| c.act == Act::Connect(i) && c.gen == e.gen).map(|c| c.round).next().unwrap_or(usize::MAX);
-            let own = tr.wire.iter().filter(|d| !d.injected && d.src == caddr(i) && d.sent_round >= start && d.sent_round < end).find_map(|d| if let Some(Frame::HandshakeSynFrame(s)) = &d.frame { Some(s.nonce) } else { None });
-            let srv_nonce = tr.delivered.iter().filter(|x| x.round <= e.round && x.round >= start).find_map(|x| { let d = &tr.wire[x.dg]; if d.dst == caddr(i) && d.src == saddr() { if let Some(Frame::HandshakeSynAckFrame(s)) = &d.frame { if Some(s.nonce_ack) == own { return Some(s.nonce); } } } None });
-            let first_c = tr.wire.iter().filter(|d| !d.injected && d.src == caddr(i) && d.sent_round >= e.round && d.sent_round < end).find_map(|d| if let Some(Frame::DataFrame(f)) = &d.frame { Some(f.clone()) } else { None });
+        // starting sequence numbers: the first data frame of each direction after a successful handshake
+        for e in tr.cev[i].iter().filter(|e| e.ev == Ev::Connect) {
+            let (a, b) = span_of(e.gen); let own = own_nonce(e.gen);
+            let srv_nonce = tr.delivered.iter().filter(|x| x.round <= e.round && x.round >= a).find_map(|x| { let d = &tr.wire[x.dg]; if d.dst == caddr(i) && d.src == saddr() { if let Some(Frame::HandshakeSynAckFrame(s)) = &d.frame { if Some(s.nonce_ack) == own { return Some(s.nonce); } } } None });
+            let first_c = tr.wire.iter().filter(|d| !d.injected && d.src == caddr(i) && d.sent_round >= e.round && d.sent_round < b).find_map(|d| if let Some(Frame::DataFrame(f)) = &d.frame { Some(f.clone()) } else { None });
             if let (Some(f), Some(o)) = (first_c, own) {
                 if f.sequence_id != o || f.datagrams.first().map_or(false, |g| g.sequence_id != (o & 0xFFFFF)) {
                     out.push(viol("C07.seq", "C07.seq:client".into(), format!("client {}'s first data frame has frame id {:x} / packet id {:x?}, expected its handshake nonce {:x} / {:x}", i, f.sequence_id, f.datagrams.first().map(|g| g.sequence_id), o, o & 0xFFFFF)));
                 }
             }
-            let s_conn_round = tr.sev[i].iter().filter(|x| x.ev == Ev::Connect && x.round + 1 >= e.round.min(x.round + 1)).map(|x| x.round).find(|r| *r >= start);
-            if let (Some(sr), Some(sn)) = (s_conn_round, srv_nonce) {
-                let first_s = tr.wire.iter().filter(|d| !d.injected && d.src == saddr() && d.dst == caddr(i) && d.sent_round >= sr && d.sent_round < end).find_map(|d| if let Some(Frame::DataFrame(f)) = &d.frame { Some(f.clone()) } else { None });
+            // the server-side connection that belongs to this handshake: the first server Connect at or after the client's, inside this life span
+            let s_conn = tr.sev[i].iter().find(|x| x.ev == Ev::Connect && x.round >= e.round && x.round < b).map(|x| x.round);
+            // ... and its end (next server Connect for that address)
+            if let (Some(sr), Some(sn)) = (s_conn, srv_nonce) {
+                let s_end = tr.sev[i].iter().filter(|x| x.ev == Ev::Connect && x.round > sr).map(|x| x.round).next().unwrap_or(usize::MAX);
+                let first_s = tr.wire.iter().filter(|d| !d.injected && d.src == saddr() && d.dst == caddr(i) && d.sent_round >= sr && d.sent_round < s_end.min(b)).find_map(|d| if let Some(Frame::DataFrame(f)) = &d.frame { Some(f.clone()) } else { None });
                 if let Some(f) = first_s {
                     if f.sequence_id != sn || f.datagrams.first().map_or(false, |g| g.sequence_id != (sn & 0xFFFFF)) {
                         out.push(viol("C07.seq", "C07.seq:server".into(), format!("server's first data frame to client {} has frame id {:x} / packet id {:x?}, expected its handshake nonce {:x} / {:x}", i, f.sequence_id, f.datagrams.first().map(|g| g.sequence_id), sn, sn & 0xFFFFF)));
@@ -263,6 +273,8 @@ pub fn oracle_c17(cfg: &EwCfg, tr: &EwTrace, expect_readmit: bool) -> Vec<Violat
     }
     // a refused SYN is answered with ServerFull; a client that sees a handshake error sees ServerFull (configs are compatible here)
     for i in 0..n {
+        let cc = &cfg.clients[i];
+        if cc.max_packet_size > cfg.server.max_receive_alloc || cfg.server.max_packet_size > cc.max_receive_alloc { continue; }
         for e in tr.cev[i].iter() { if let Ev::Error(k) = e.ev { if k == 1 || k == 2 { out.push(viol("C17.refusal", "C17.refusal".into(), format!("client {} was refused with {} although only the connection limits stand in its way", i, ev_name(&e.ev)))); } } }
     }
     if expect_readmit {
@@ -402,21 +414,28 @@ pub fn oracle_c10(cfg: &EwCfg, tr: &EwTrace) -> Vec<Violation> {
             if !o.s_stepped { continue; }
             let r = o.round; let t = o.t_ms;
             for c in tr.calls.iter().filter(|c| c.round == r) { if matches!(c.act, Act::SDrop(k) | Act::SDisconnect(k) | Act::SDisconnectNow(k) if k == i) { conn = None; } }
-            let evs: Vec<&EvRec> = tr.sev[i].iter().filter(|e| e.round == r).collect();
             let heard = tr.delivered.iter().any(|x| x.round == r && { let d = &tr.wire[x.dg]; d.src == caddr(i) && d.dst == saddr() && is_conn_frame(&d.frame) });
-            if evs.iter().any(|e| e.ev == Ev::Connect) { conn = Some(t); last_heard = t; continue; }
-            if conn.is_some() {
-                if evs.iter().any(|e| e.ev == Ev::Disconnect) { conn = None; continue; }
-                if heard { last_heard = t; }
-                let silent = t - last_heard;
-                let timeout_now = evs.iter().any(|e| e.ev == Ev::Error(0));
-                if timeout_now {
-                    if silent < ts_cfg { out.push(viol("C10.active", "C10.active:early".into(), format!("server: Error(Timeout) for client {} at t={} ms although a frame from it was processed {} ms earlier (active_timeout_ms {})", i, t, silent, ts_cfg))); }
-                    conn = None; continue;
+            let was_conn = conn.is_some();
+            let mut timeout_now = false; let mut ended = false;
+            // events of this step in the order the server produced them
+            for e in tr.sev[i].iter().filter(|e| e.round == r) {
+                match e.ev {
+                    Ev::Connect => { conn = Some(t); last_heard = t; }
+                    Ev::Disconnect => { conn = None; ended = true; }
+                    Ev::Error(0) => { if conn.is_some() { timeout_now = true; } }
+                    _ => {}
                 }
-                if silent >= ts_cfg && !heard {
-                    out.push(viol("C10.active", "C10.active:late".into(), format!("server: {} ms of silence from client {} at t={} ms (active_timeout_ms {}) but no Error(Timeout) in this step", silent, i, t, ts_cfg))); conn = None;
-                }
+            }
+            if !was_conn || ended { if timeout_now { conn = None; } continue; }
+            if conn.is_none() { continue; }
+            if heard { last_heard = t; }
+            let silent = t - last_heard;
+            if timeout_now {
+                if silent < ts_cfg { out.push(viol("C10.active", "C10.active:early".into(), format!("server: Error(Timeout) for client {} at t={} ms although a frame from it was processed {} ms earlier (active_timeout_ms {})", i, t, silent, ts_cfg))); }
+                conn = None; continue;
+            }
+            if silent >= ts_cfg && !heard {
+                out.push(viol("C10.active", "C10.active:late".into(), format!("server: {} ms of silence from client {} at t={} ms (active_timeout_ms {}) but no Error(Timeout) in this step", silent, i, t, ts_cfg))); conn = None;
             }
         }
     }
@@ -456,6 +475,9 @@ pub fn oracle_c09(cfg: &EwCfg, tr: &EwTrace) -> Vec<Violation> {
         for (dir, call, peer_called, peer_evs) in [(0usize, c_disc, s_any, &tr.sev[i]), (1usize, s_disc, c_any, &tr.cev[i])] {
             let call = match call { Some(c) => c, None => continue };
             if peer_called { continue; }
+            // disconnect_now() by the same side (at any time) gives up the guarantee, as does dropping either object
+            let own_now = tr.calls.iter().any(|c| if dir == 0 { matches!(c.act, Act::CDisconnectNow(k) | Act::Forget(k) | Act::SDrop(k) | Act::Connect(k) if k == i) && c.round > 0 } else { matches!(c.act, Act::SDisconnectNow(k) | Act::SDrop(k) | Act::Forget(k) if k == i) });
+            if own_now { continue; }
             // the connection must have been established at the caller when disconnect() was called
             let established = if dir == 0 { tr.cev[i].iter().any(|e| e.ev == Ev::Connect && e.round < call.round) || tr.obs.get(call.round.saturating_sub(1)).map_or(false, |o| o.c_active[i]) } else { tr.obs.get(call.round.saturating_sub(1)).map_or(false, |o| o.s_active[i]) };
             if !established { continue; }
